@@ -46,6 +46,51 @@ TEXT = {
             "That the report *is* emitted has no observable post-state (permission = argument flow only); error channel, background cleanup failures not decided."),
 }
 
+TEXT.update({
+    "C02": ("Verus proves LogSpecification::enabled == `first entry in list order that applies decides` (unbounded loop invariant) and, as a pure lemma, "
+            "that on a list sorted by descending name length this is the longest specified module name that is a prefix of the target, else the default, "
+            "else off; FlexiLogger::log hands the record to the primary writer / the line filter only if that decision (on the target, or on the module "
+            "path for a brace target listing _Default) holds and the text filter matches (unit-local effect permissions); FlexiLogger::enabled equals the "
+            "specification for plain targets and is never false when an addressed writer accepts the level; WritersHandle::set_new_spec passes "
+            "new_spec.max_level() to reconfigure. Kani proves the Level/LevelFilter comparison tables the Verus axioms rest on.",
+            "The `if` direction (the hand-over happens) has no observable post-state behind &self; level_sort / max_level / reconfigure's HashMap loop are "
+            "not decided yet (iterator adapters); regex semantics, core::fmt are oracles; enabled() for {..,_Default} with module filters cannot hold "
+            "(Metadata carries no module path) and is not claimed."),
+    "C05": ("Verus proves on the extracted bodies: push_temp_spec / pop_temp_spec / parse_and_push_temp_spec keep an exact stack of saved specifications "
+            "and activate exactly the new / popped / parsed specification; a malformed string leaves stack and active specification unchanged (this "
+            "obligation found defect F3, repaired by a fix: commit); parse_new_spec / LoggerHandle::set_new_spec / WritersHandle::set_new_spec hand exactly "
+            "their argument down to LogSpecification::update_from, whose postcondition (filters and text filter replaced) is proved too; lemma_stack: a "
+            "pop after a push restores stack and active specification.",
+            "The step through the RwLock (lock content after the guard is dropped) is assumed (interior mutability); for the &mut self callers the callee "
+            "shim of LoggerHandle::set_new_spec is declared &mut self so that the lock content is part of the handle's abstract state; the parser is an "
+            "oracle (C17 not applicable); concurrent use is C12."),
+    "C07": ("Selection rule: Kani runs the real remove_or_compress_too_old_logfiles_impl with recording stubs for the listing and std::fs::remove_file "
+            "(BOUNDED: listing length 0..3 quick, 0..5 thorough; limits full-domain symbolic, failing removal at a symbolic position): exactly the entries "
+            "beyond the limit are removed, in order, only listed files, the newest file is spared with direct naming, Never does nothing. Verus proves that "
+            "mount_next / initialize_with_rotation hand the cleanup the filter and writes_direct of the active naming state; Kani proves "
+            "NamingState::writes_direct (complete).",
+            "Proof level applies to the Verus clauses and the complete Kani leaves; the selection rule itself is a bounded stand-in (stated bound). "
+            "Feature `compress` (gzip, finish-before-remove) and the background cleanup thread are not verified; `listing is newest first` rests on "
+            "filter_files and the string order of names (finding F10)."),
+    "C10": ("Every function under contract in every unit carries the obligations Verus generates by itself for arithmetic overflow, str/slice/Vec index "
+            "preconditions, unwrap/expect, unreachable!, callee preconditions and loop termination, for unbounded inputs; one body obligation per function. "
+            "This found the brace-target slicing panic F1 (repaired).",
+            "Covered functions are listed in the evidence; NOT covered (named in DESIGN.md 5/C10): directory-name parsing (filter_files, get_highest_index, "
+            "ts_infix_from_path, collision_free_infix_for_rotated_file, try_from), LogSpecification::parse, StateHandle::write, format functions, syslog, "
+            "specfile; joins/channel receives (hang) are not decided. Arithmetic premises A5 are assumed."),
+    "C13": ("Verus proves with unit-local effect permissions on the extracted FlexiLogger::log: an additional writer's write is reached only for a writer "
+            "registered under a name listed in the brace target, only with this record, and the default channel only if the list contains _Default and the "
+            "specification enables the module path; unknown names reach only the error channel (ErrorCode::WriterSpec). Kani proves the Duplicate u8 "
+            "encoding round trip and the level comparison tables.",
+            "`exactly once` / `the hand-over happens` have no observable count behind &self; FileLogWriter::write ceiling and MultiWriter duplication are "
+            "decided in units flw / multi when registered; SyslogWriter (feature syslog_writer) is not verified (finding F8 from reading)."),
+    "C14": ("The set of paths the writer touches is pinned by contract: Verus proves rename only between path_spec(rCURRENT) and path_spec(number infix), "
+            "open only at path_spec(infix) resp. the stored path (reopen, plus its documented dummy sibling), and Kani (BOUNDED by listing length) that every "
+            "remove_file argument is an element of the listing handed to the cleanup, in order.",
+            "That the listing contains only members of the family (read_dir_related_files + filter_files string matching; finding F2) is NOT decided: "
+            "PathBuf/Cow/iterator chains have no usable specs and exceed CBMC; timestamps rename (creation_timestamp_of_currentfile) is an assumed oracle."),
+})
+
 NOT_APPLICABLE = {
     "C03": "quantifier is thread schedules: Kani has no threads, Verus would need its own permission-typed locks instead of std::sync::Mutex/crossbeam/thread_local; mutual exclusion is a typing fact, not a contract",
     "C11": "quantifier is crash points between file-system effects: contracts describe completed calls, effect order is invisible to result oracles, no crash-aware program logic for Rust is installed",
